@@ -134,7 +134,7 @@ pub fn check_program(name: &str, p: &Program, acc: &mut Acc) {
         }
         for n in &reach {
             let nd = &gv.nodes[*n];
-            let other_return = *n != f.exit && (nd.is_return || nd.jumps_to.as_deref() == Some("__return__"));
+            let other_return = *n != f.exit && (nd.is_return || matches!(nd.jumps_to.as_deref(), Some("__return__" | "<return>")));
             if other_return && !nd.nexts.contains(&f.exit) {
                 // a merged return may lead to the exit of *another* function that shares it;
                 // it must at least lead to an exit of one of its owners
